@@ -14,6 +14,18 @@ pub fn server_addr(i: usize) -> SocketAddr {
     SocketAddr::new(IpAddr::V4(Ipv4Addr::new(10, 0, 0, 1 + i as u8)), 5000)
 }
 
+/// Second public address of server `i`: another family, another ip, another port.
+pub fn server_alt_addr(i: usize) -> SocketAddr {
+    SocketAddr::new(IpAddr::V6(std::net::Ipv6Addr::new(0xfd00, 0, 0, 0, 0, 0, 0, 1 + i as u16)), 6000 + i as u16)
+}
+
+/// Addresses that are NOT public addresses of server `i` but share an ip or a port with them (a sibling service on the same host,
+/// the ip of one public address with the port of the other).
+pub fn near_miss_addrs(i: usize) -> [SocketAddr; 4] {
+    let (a, b) = (server_addr(i), server_alt_addr(i));
+    [SocketAddr::new(a.ip(), b.port()), SocketAddr::new(b.ip(), a.port()), SocketAddr::new(b.ip(), b.port() + 1), SocketAddr::new(a.ip(), a.port() + 1)]
+}
+
 pub fn client_addr(i: usize) -> SocketAddr {
     SocketAddr::new(IpAddr::V4(Ipv4Addr::new(192, 168, 0, 10 + i as u8)), 4000 + i as u16)
 }
@@ -128,10 +140,10 @@ pub fn mk_server(i: usize, key_n: u64, protocol: u64, max_clients: usize, now: D
         max_clients,
         protocol_id: protocol,
         // every server is reachable under two public addresses; tokens usually list the first
-        public_addresses: vec![server_addr(i), server_addr(i + 20)],
+        public_addresses: vec![server_addr(i), server_alt_addr(i)],
         authentication: if secure { ServerAuthentication::Secure { private_key: k } } else { ServerAuthentication::Unsecure },
     });
-    ServerEnd { server, key: k, protocol, addr: server_addr(i), alt: server_addr(i + 20), max_clients }
+    ServerEnd { server, key: k, protocol, addr: server_addr(i), alt: server_alt_addr(i), max_clients }
 }
 
 impl NetWorld {
